@@ -64,3 +64,56 @@ package cache
 //@   loop 3 invariant -1 <= #i && #i < len(item.msg.Extra) && allTTL(msg.Extra, newTTL) && fresh(msg) && ownSlice(msg.Extra)
 //@   loop 3 invariant len(msg.Answer) == len(item.msg.Answer) && len(msg.Ns) == len(item.msg.Ns) && allTTL(msg.Answer, newTTL) && allTTL(msg.Ns, newTTL)
 //@   loop 3 invariant ownSlice(msg.Answer) && ownSlice(msg.Ns) && (arr(msg.Answer) == 0 || arr(msg.Answer) != arr(msg.Extra)) && (arr(msg.Ns) == 0 || arr(msg.Ns) != arr(msg.Extra))
+
+// ---------------------------------------------------------------------------
+// C04: answers cached for a different qtype, qclass, DO setting or name are
+// never returned - the cache key is a byte string laid out from exactly those
+// four components of the REQUEST.
+
+//@ fun lowerOf(s string) string
+//@ pred hasDO(m *dns.Msg) = exists i int :: lastOPT(m, i) && optDo(optAt(m, i).Hdr.Ttl)
+//@ pred keyLayout(k string, do bool, qtype int, qclass int, name string) = len(k) == 5 + len(lowerOf(name)) &&
+//@      k[0] == (do ? 1 : 0) && k[1] * 256 + k[2] == qtype && k[3] * 256 + k[4] == qclass &&
+//@      (forall i int :: 0 <= i && i < len(lowerOf(name)) ==> k[5 + i] == lowerOf(name)[i])
+
+//@ func toCacheKey
+//@   property C04
+//@   requires msg != nil && len(msg.Question) >= 1 && len(msg.Question[0].Name) <= 255
+//@   let name = msg.Question[0].Name
+//@   ensures key-layout: len(k) == 5 + len(lowerOf(name)) && k[0] == (hasDO(msg) ? 1 : 0) &&
+//@             k[1] * 256 + k[2] == msg.Question[0].Qtype && k[3] * 256 + k[4] == msg.Question[0].Qclass &&
+//@             (forall i int :: 0 <= i && i < len(lowerOf(name)) ==> k[5 + i] == lowerOf(name)[i])
+
+// Equal keys mean equal DO setting, type, class and (lower-cased) name.
+//@ lemma key-separates-questions
+//@   property C04
+//@   forall k1 string, k2 string, do1 bool, do2 bool, t1 int, t2 int, c1 int, c2 int, n1 string, n2 string
+//@   requires keyLayout(k1, do1, t1, c1, n1) && keyLayout(k2, do2, t2, c2, n2) && k1 == k2
+//@   requires 0 <= t1 && t1 <= 65535 && 0 <= t2 && t2 <= 65535 && 0 <= c1 && c1 <= 65535 && 0 <= c2 && c2 <= 65535
+//@   ensures do1 == do2 && t1 == t2 && c1 == c2 && len(lowerOf(n1)) == len(lowerOf(n2))
+//@   ensures forall i int :: 0 <= i && i < len(lowerOf(n1)) ==> lowerOf(n1)[i] == lowerOf(n2)[i]
+
+//@ func isCacheableNOERROR
+//@   requires resp != nil && len(resp.Question) >= 1 && validRRs(resp.Answer) && validRRs(resp.Ns)
+//@   modifies nothing
+//@ func setMinTTL
+//@   requires r != nil && validRRs(r.Answer)
+//@   modifies dns.RR_Header.Ttl
+
+//@ func isCacheable
+//@   property C04
+//@   requires msg != nil && validRRs(msg.Answer) && validRRs(msg.Ns)
+//@   ensures only-complete-answers: ok ==> !msg.Truncated && len(msg.Question) == 1 && (msg.Rcode == 0 || msg.Rcode == 3 || msg.Rcode == 2)
+
+// set stores the response under the key of the REQUEST, and only cacheable
+// responses with a non-zero lowest TTL.
+//@ func (*Middleware).set
+//@   property C04
+//@   nilrecv
+//@   requires req != nil && msg != nil && len(req.Question) >= 1 && len(req.Question[0].Name) <= 255 && validRRs(msg.Answer) && validRRs(msg.Ns) && validRRs(msg.Extra)
+//@   requires m != nil ==> m.cache != nil
+//@   modifies lastLowest, dns.RR_Header.Ttl, gstores, gkey, gval
+//@   ensures at-most-one-store: m != nil ==> gstores[m.cache] <= old(gstores[m.cache]) + 1
+//@   ensures stored-under-request-key: m != nil && gstores[m.cache] == old(gstores[m.cache]) + 1 ==>
+//@             keyLayout(gkey[m.cache], old(hasDO(req)), old(req.Question[0].Qtype), old(req.Question[0].Qclass), old(req.Question[0].Name))
+//@   ensures zero-ttl-not-cached: m != nil && lastLowest == 0 ==> gstores[m.cache] == old(gstores[m.cache])
